@@ -1120,7 +1120,12 @@ func encodeFlateLZW(w io.WriteCloser, p FlatePredictor, colors, bpc, columns int
 	}
 
 	originalZw := zw
+	closed := false
 	close := func() error {
+		if closed {
+			return nil
+		}
+		closed = true
 		err := originalZw.Close()
 		if err != nil {
 			return err
@@ -1265,25 +1270,26 @@ func zlibNewReader(r io.Reader) (io.ReadCloser, error) {
 		if err := zr.Reset(r, nil); err != nil {
 			return nil, err
 		}
-		return pooledZlibReader{obj.(io.ReadCloser)}, nil
+		return &pooledZlibReader{ReadCloser: obj.(io.ReadCloser)}, nil
 	}
 
 	zr, err := zlib.NewReader(r)
 	if err != nil {
 		return nil, err
 	}
-	return pooledZlibReader{zr}, nil
+	return &pooledZlibReader{ReadCloser: zr}, nil
 }
 
 type pooledZlibReader struct {
 	io.ReadCloser
+	closed bool // set by Close, so that the reader is pooled only once
 }
 
 // Read delegates to the wrapped zlib reader, but masks a final
 // [zlib.ErrChecksum] as [io.EOF].  PDF readers in the wild routinely ignore
 // the trailing Adler-32 check, and we follow suit here so that a corrupt
 // checksum does not make an otherwise readable stream unusable.
-func (r pooledZlibReader) Read(p []byte) (int, error) {
+func (r *pooledZlibReader) Read(p []byte) (int, error) {
 	n, err := r.ReadCloser.Read(p)
 	if err == zlib.ErrChecksum {
 		err = io.EOF
@@ -1291,7 +1297,10 @@ func (r pooledZlibReader) Read(p []byte) (int, error) {
 	return n, err
 }
 
-func (r pooledZlibReader) Close() error {
+func (r *pooledZlibReader) Close() error {
+	if r.closed {
+		return nil
+	}
 	err := r.ReadCloser.Close()
 	if err == zlib.ErrChecksum {
 		err = nil
@@ -1299,6 +1308,7 @@ func (r pooledZlibReader) Close() error {
 	if err != nil {
 		return err
 	}
+	r.closed = true
 	zlibReaderPool.Put(r.ReadCloser)
 	return nil
 }
